@@ -264,3 +264,25 @@ package solver
 //@ func (*pbSet).falsifies
 //@   requires idx: pb != nil && lit >= 0 && lit / 2 < len(pb.weights)
 //@   ensures  def: result <==> (pb.weights[lit / 2] != 0 && ((pb.weights[lit / 2] < 0) <==> (lit % 2 == 0)))
+
+// ---------------------------------------------------------------- clauses (C01, C02)
+
+// holds(c, A): assignment A satisfies the constraint stored in c (clause, cardinality or PB)
+//@ define holds(c *Clause, A asg) bool = (c.pbData == nil && psum(c.lits, nil, A, len(c.lits)) >= c.Cardinality()) || (c.pbData != nil && psum(c.lits, c.pbData.weights, A, len(c.lits)) >= c.Cardinality())
+
+//@ func NewPBClause
+//@   ghost A asg
+//@   requires card: 1 <= card && card <= 1073741824
+//@   requires lens: weights == nil || len(weights) == len(lits)
+//@   modifies lits[*], weights[*]
+//@   sort Sort#1 modifies lits[*], weights[*]
+//@   sort Sort#1 invariant perm: psum(lits, weights, A, len(lits)) == old(psum(lits, weights, A, len(lits)))
+//@   ensures  shape: result != nil && fresh(result) && result.pbData != nil && len(result.lits) == len(lits) && len(result.pbData.weights) == len(lits) && len(result.pbData.watched) == len(lits)
+//@   ensures  card:  result.Cardinality() == card && !result.Learned()
+//@   ensures  sem:   holds(result, A) <==> (old(psum(lits, weights, A, len(lits))) >= card)
+//@   loop 1
+//@     invariant idx:  0 <= rangei && rangei <= len(lits) && weights == nil
+//@     invariant ones: forall(k, 0, rangei, pbd.weights[k] == 1)
+//@     invariant shp:  pbd.weights != nil && len(pbd.weights) == len(lits) && fresh(pbd.weights)
+//@     invariant perm: psum(lits, nil, A, len(lits)) == old(psum(lits, weights, A, len(lits)))
+//@   assert exit ones: old(weights == nil) ==> lem_psum_ones(result.lits, result.pbData.weights, A, len(result.lits))
